@@ -110,7 +110,7 @@ def run_programs(chk, programs):
 
 
 def sizes(tier):
-    return (150, 150, 60, 6) if tier == "quick" else (4000, 4000, 1500, 80)
+    return (150, 150, 60, 6) if tier == "quick" else (9000, 9000, 3000, 100)
 
 
 def run(chk, only=None):
